@@ -405,6 +405,17 @@ def main(argv=None) -> int:
         env = dict(os.environ, PYTHONHASHSEED="0")
         os.execve(sys.executable, [sys.executable, "-m", "pbt.runner"] + (argv if argv is not None else sys.argv[1:]), env)
 
+    # every temporary file of this run (generated projects, diagrams, batches - also those of pool workers and child
+    # interpreters, which inherit TMPDIR) lives below one private directory that is removed when the run ends
+    import atexit
+    import shutil
+    import tempfile
+
+    scratch = tempfile.mkdtemp(prefix=f"pbt_{prop}_")
+    os.environ["TMPDIR"] = scratch
+    tempfile.tempdir = scratch
+    atexit.register(shutil.rmtree, scratch, True)
+
     try:
         seed_value = int(os.environ.get("VERIF_SEED", "1"))
     except ValueError:
